@@ -51,6 +51,8 @@ pub struct Prop {
     pub both_profiles: bool,
     /// minimum number of distinct outcome hashes expected (vacuity guard)
     pub min_outcomes: usize,
+    /// replay of violations that do not come from an index space (engine-specific)
+    pub replay_fn: Option<Box<dyn Fn(&Value) -> Vec<(String, Value)> + Send + Sync>>,
 }
 
 impl Prop {
@@ -64,6 +66,7 @@ impl Prop {
             bounds: json!({}),
             both_profiles: false,
             min_outcomes: 2,
+            replay_fn: None,
         }
     }
 }
@@ -438,6 +441,29 @@ fn do_replay(prop: &Prop, path: &str) -> i32 {
     let v: Value = serde_json::from_str(&text).expect("replay json");
     let space = v["space"].as_str().unwrap_or("");
     let idx = v["index"].as_u64().unwrap_or(0);
+    if let (Some(f), true) = (prop.replay_fn.as_ref(), prop.spaces.iter().all(|s| s.name != space)) {
+        println!("replay {} engine-space={} profile={}", prop.id, space, profile_name());
+        let r = guarded(|| f(&v["detail"]));
+        return match r {
+            Err((loc, msg)) => {
+                println!("PANIC at {}: {}", loc, msg);
+                println!("VIOLATION property={} replay={}", prop.id, path);
+                1
+            }
+            Ok(vs) if vs.is_empty() => {
+                println!("no violation on this tree");
+                0
+            }
+            Ok(vs) => {
+                for (sig, d) in vs {
+                    println!("signature: {}", sig);
+                    println!("detail: {}", d);
+                }
+                println!("VIOLATION property={} replay={}", prop.id, path);
+                1
+            }
+        };
+    }
     let Some(sp) = prop.spaces.iter().find(|s| s.name == space) else {
         eprintln!("MACHINERY-ERROR no space {} in {} (was the file recorded with the other tier?)", space, prop.id);
         return 2;
